@@ -181,8 +181,20 @@ type Req struct {
 	// case), "url-port" (the default port written out), "netpath" (//host/path).
 	DestForm string `json:"dest_form,omitempty"`
 	Dest     string `json:"dest,omitempty"`
-	// PropBody: "" (empty body), "five" (the client's five-property request).
+	// PropBody: "" (empty body), "five" (the client's five-property request),
+	// "allprop" / "propname" (the XML forms), or "names:<set>" - a <prop>
+	// request for one of the explorer's named sets of property names (live
+	// DAV: names next to foreign and near-miss namespaces).
 	PropBody string `json:"prop_body,omitempty"`
+	// Extra: further request header fields (name, value) that the RFC 4918
+	// model has no rule for (integrity announcements, HTTP/1.1 conditionals on
+	// dates, content codings, vendor extensions...). A request that carries any
+	// is outside the model's universe; ExtraTag names the family for keys.
+	Extra    [][2]string `json:"extra,omitempty"`
+	ExtraTag string      `json:"extra_tag,omitempty"`
+	// BreakAfter: the request body breaks off with a read error after that
+	// many bytes (PUT). Outside the model's universe.
+	BreakAfter *int `json:"break_after,omitempty"`
 }
 
 // Outcome is one acceptable result: a status predicate and the tree after.
@@ -233,6 +245,9 @@ var knownMethods = map[string]bool{"OPTIONS": true, "GET": true, "HEAD": true, "
 // InUniverse reports whether the model has an opinion about the request.
 // Mutations that involve the root, PROPPATCH and LOCK are outside it.
 func InUniverse(r Req) bool {
+	if len(r.Extra) > 0 || r.BreakAfter != nil {
+		return false
+	}
 	switch r.Method {
 	case "PROPPATCH", "LOCK", "UNLOCK":
 		return false
